@@ -394,9 +394,64 @@ def main():
     cls = {"greet": "drop", "helo": "ok", "mail": "ok", "rcpt": ["ok"], "data": "ok", "dot": "ok"}
     recs.append(observe(cls, {"cmds": []}, p.stdout, p.returncode))
     for r in recs:
-        ck.count(json.dumps(r["s"], sort_keys=True) + r["out"][:1], nontrivial=r["s"]["greet"] == "ok")
+        r.setdefault("fault", 0)
+        r.setdefault("srvok", 0)
+    # ---- one failing or short system call of qmail-remote itself per run, against a server that accepts everything
+    if not a.replay:
+        okcls = {"greet": "ok", "helo": "ok", "mail": "ok", "rcpt": ["ok"], "data": "ok", "dot": "ok"}
+        ep = smtpsrv.Endpoint(70)
+        with open(os.path.join(tree.root, "control", "smtproutes"), "a") as f:
+            f.write(ep.route() + "\n")
+        body = b"Subject: f\n\n" + b"".join(b"line %03d of the body\n" % i for i in range(120))
+        tr = ck.scratch.path("rfault.trace")
+        env0 = sandbox.shim_env(tree, trace=tr, role="remote")
+        smtpsrv.run_remote(tree, ep, body, "s@sender.test", ["r1@" + ep.host], to_server_script(rng, okcls, 0.0), env=env0)
+        ncalls = len([e for e in sandbox.read_trace(tr) if e.get("c") not in ("exit", "start", "hello")])
+        if ncalls < 5:
+            raise Infra("the traced qmail-remote made only %d intercepted calls" % ncalls)
+        ep.close()
+        feps = [smtpsrv.Endpoint(71 + i) for i in range(12)]
+        with open(os.path.join(tree.root, "control", "smtproutes"), "a") as f:
+            f.write("".join(e_.route() + "\n" for e_ in feps))
+        fq = queue.Queue()
+        for k in range(1, ncalls + 3):
+            for what in (("5", "short1", "short300") if thorough or k % 3 == 0 else ("5",)):
+                fq.put((k, what))
+        frecs = []
+        flock = threading.Lock()
+
+        def fwork(e_):
+            while True:
+                try:
+                    k, what = fq.get_nowait()
+                except queue.Empty:
+                    return
+                t_ = ck.scratch.path("rfault.%d.%s.trace" % (k, what))
+                env = sandbox.shim_env(tree, trace=t_, role="remote", extra={"VERIF_FAULT": "%d:%s" % (k, what)})
+                obs, out, rc = smtpsrv.run_remote(tree, e_, body, "s@sender.test", ["r1@" + e_.host], to_server_script(rng, okcls, 0.0), env=env, timeout=3.0)
+                hit = [x for x in sandbox.read_trace(t_) if x.get("inj") or (x.get("res") == -1 and x.get("e") == 5)]
+                os.unlink(t_) if os.path.exists(t_) else None
+                if hit and hit[0].get("c") == "write" and hit[0].get("fd") == 1:
+                    continue          # the failing call was the write of the report itself: there is nothing left to judge
+                rec = observe(okcls, obs, out, rc)
+                pl = obs.get("payload")
+                rec.update({"fault": 1, "srvok": 1 if (pl is not None and pl.endswith(b"\r\n.\r\n") and obs.get("phase_end") in ("quit", "clienteof", "none")) else 0, "junk": [], "note": "fault%d/%s" % (k, what)})
+                with flock:
+                    frecs.append(rec)
+        fths = [threading.Thread(target=fwork, args=(e_,)) for e_ in feps]
+        for t_ in fths:
+            t_.start()
+        for t_ in fths:
+            t_.join()
+        for e_ in feps:
+            e_.close()
+        recs += frecs
+        nf = len(frecs)
+        ck.cov["runs_with_one_failing_call_of_the_client"] = nf
+    for r in recs:
+        ck.count(json.dumps(r["s"], sort_keys=True) + r["out"][:1] + r.get("note", ""), nontrivial=r["s"]["greet"] == "ok")
     recfile = ck.scratch.path("c09.ndjson")
-    write_ndjson(recfile, [{k: v for k, v in r.items() if k not in ("out", "end", "junk")} for r in recs])
+    write_ndjson(recfile, [{k: v for k, v in r.items() if k not in ("out", "end", "junk", "note")} for r in recs])
     bad, vres = tlc_validate_records("RemoteRec", "RemoteRec.cfg", recfile, len(recs), chunk=200)
     ck.add_tlc("RemoteRec", vres)
     ck.cov["traces_validated_against_impl"] = len(recs)
@@ -412,6 +467,8 @@ def main():
     for why, r in sorted(best.items()):
         s = r["s"]
         key = "remote:%s:script=%s/%s/%s/%s/%s/%s" % (why, s["greet"], s["helo"], s["mail"], ",".join(s["rcpt"]), s["data"], s["dot"])
+        if r.get("note"):
+            key += ":" + r["note"]
         if r.get("junk"):
             key += ":reply=" + ",".join(j.encode("latin1").hex() for j in r["junk"])
         ck.violation(key, "server script %s%s -> reports %s %s dup=%s exit=%s (%r)" % (s, (" with malformed reply %r" % r["junk"]) if r.get("junk") else "", r["rr"], r["mr"], r["dup"], r["exit"], r["out"][:100]), r)
